@@ -179,7 +179,10 @@ class Interp:
             ent.multi = False
         self.live.append(ent)
         if len(self.live) > MAX_LIVE:
-            self.live.pop(0)
+            old = self.live.pop(0)
+            # an evicted tensor is still compared against the snapshot of the running step; remember it so that
+            # mark_inplace can exempt it if it belongs to the (documented) alias group of the in-place target
+            self._evicted = getattr(self, '_evicted', []) + [old]
         return ent
 
     def pick(self, k):
@@ -358,6 +361,9 @@ class Interp:
                     o.dead = True
                     self.live.remove(o)
                     self._inplace.add(id(o))
+            for o in getattr(self, '_evicted', []):
+                if o.group == ent.group:
+                    o.dead = True
             ent.group = None
 
     def alias(self, a, b):
